@@ -14,6 +14,7 @@ package main
 import (
 	"encoding/json"
 	"fmt"
+	"github.com/BondMachineHQ/BondMachine/pkg/bondgo"
 	"os"
 	"os/exec"
 	"path/filepath"
@@ -254,6 +255,12 @@ func shapeText(s shapeRow) (src string, want *topoState) {
 			code[1] = "\tmov r1, " + strconv.Itoa(1<<uint(s.RSize)-1) // fits exactly
 		case "rset-wide-bin":
 			code[1] = "\trset r1, 0b1" + strings.Repeat("0", s.RSize)
+		case "j-beyond-rom": // five instructions: a ROM of eight words; the numeric target does not fit the location field
+			code[4] = "\tj 12"
+		case "jz-beyond-rom":
+			code[4] = "\tjz r0, 12"
+		case "j-last-word": // the control: the last word of the ROM is a legal target
+			code[4] = "\tj 7"
 		}
 	}
 	if s.Kind == "romscan" {
@@ -482,6 +489,18 @@ func runC16(r *evid.Run) {
 		if kind == "basm-program" || strings.HasPrefix(kind, "shape:") {
 			want.MinRegs, want.MinIns, want.MinOuts = basmDemands(src)
 		}
+		if kind == "abstract-assembly" {
+			count := func(letter string) int {
+				max := -1
+				for _, m := range regexp.MustCompile(`\b`+letter+`([0-9]+)\b`).FindAllStringSubmatch(src, -1) {
+					if n, _ := strconv.Atoi(m[1]); n > max {
+						max = n
+					}
+				}
+				return max + 1
+			}
+			want.MinRegs, want.MinIns, want.MinOuts = []int{count("r")}, []int{count("i")}, []int{count("o")}
+		}
 		lenc.Encode(wfRecord(len(origins), bm, want))
 		actual := readTopo(bm)
 		if topo == nil {
@@ -569,7 +588,7 @@ func runC16(r *evid.Run) {
 		src, want := shapeText(s)
 		bm, err := assembleForC05(src)
 		ctx := map[string]interface{}{"shape": s, "source": src}
-		if s.Kind == "misfit" && s.What != "mov-max" {
+		if s.Kind == "misfit" && s.What != "mov-max" && s.What != "j-last-word" {
 			if err != nil {
 				misfitRejected++
 				return nil
@@ -757,6 +776,36 @@ func runC16(r *evid.Run) {
 			continue
 		}
 		emit("bondgo-memory-variables", gs[1], bm, wfWant{NProcs: 1, NBonds: 2, NSo: -1}, nil, gs[0])
+	}
+	// the abstract-assembly front-end of bondgo (one program text per processor plus bonds): programs in
+	// which the highest register is mentioned once, as the source or as the destination of one instruction
+	for _, op := range []string{"add", "cpy", "mult", "and", "or", "xor"} {
+		for _, form := range []string{"%s r0 r2", "%s r2 r0", "%s r0 r4", "%s r4 r1"} {
+			line := fmt.Sprintf(form, op)
+			prog := "clr r0\nrset r1 3\n" + line + "\nr2o r0 o0\n"
+			var bm *bondmachine.Bondmachine
+			err := func() (err error) {
+				defer func() {
+					if e := recover(); e != nil {
+						err = fmt.Errorf("panic: %v", e)
+					}
+				}()
+				bm, err = bondgo.MultiAsm2BondMachine(8, &bondgo.Abs_assembly{ProcProgs: []string{prog}, Bonds: []string{"p0o0,o0"}})
+				return err
+			}()
+			if err != nil || bm == nil {
+				if op == "cpy" {
+					rejected++ // this front-end does not know cpy: outside its accepted sources (rejected, as it must be)
+					continue
+				}
+				r.Violate("rejected:abstract-assembly", fmt.Sprintf("the abstract-assembly front-end rejects a program that fits (%s): %v", line, err), map[string]interface{}{"source": prog})
+				continue
+			}
+			want := wfWant{NProcs: 1, NBonds: 1, NSo: -1, MinRom: 4}
+			emit("abstract-assembly", prog, bm, want, nil, line)
+			// (emit fills the demands for basm sources only)
+			_ = want
+		}
 	}
 	lf.Close()
 	tf.Close()
